@@ -25,6 +25,7 @@ OUT_OF_DOMAIN = [
     'version: "3"\n/* never closed', 'version: "3"\nmod nope;', 'version: "3"\r\nstruct A { a @0: u8, }',
 ]
 
+EXOTIC_SEPARATORS = ["\r", "\x0b", "\x0c", "\x1c", "\x1d", "\x1e", "\x85", "\u2028", "\u2029"]
 CITE = re.compile(r"\[([^\[\]:]+):(-?\d+)\]")
 
 
@@ -63,8 +64,8 @@ def run(chk):
     chk.coverage["rule"] = (
         "(a) token-level mutations (delete / duplicate / swap / replace one token) of valid front-profile token lists and the out-of-domain literals "
         "the property lists: outcome (schema / error) compared in Coq with the model, no exception may escape, Logger.error must render and every "
-        "cited line must exist; (b) random printable text and prefixes of valid texts at every cut point sampled: only the implementation-side "
-        "totality predicate; non-trivial = input is not a valid schema; distinct = input text")
+        "cited line must exist; (b) random printable text and prefixes of valid texts at every cut point sampled: (also with comments holding \\r, \\f, U+2028 and the other characters str.splitlines() "
+        "takes for line ends): only the implementation-side totality predicate; non-trivial = input is not a valid schema; distinct = input text")
     oracle = printer.float_oracle(None)
     cases, meta, fails = [], [], []
 
@@ -95,6 +96,15 @@ def run(chk):
         text = printer.render(toks, chk.rng)
         for cut in sorted(chk.rng.sample(range(len(text)), min(len(text), 6 if quick else 12))):
             one(text[:cut], "prefix", False)
+        # the same with comments that hold the characters str.splitlines() - but not the lexer - treats as line ends
+        lines = text.split("\n")
+        for _ in range(chk.rng.randint(1, 3)):
+            sep = chk.rng.choice(EXOTIC_SEPARATORS)
+            at = chk.rng.randrange(1, len(lines) + 1)
+            lines.insert(at, chk.rng.choice(["// a%sb%sc", "/* a%sb */", "// %s", "/* a%s\nb%s */"]).replace("%s", sep))
+        text2 = "\n".join(lines)
+        for cut in sorted(chk.rng.sample(range(len(text2)), min(len(text2), 6 if quick else 12))) + [len(text2.rstrip("}\n \t,"))]:
+            one(text2[:cut], "prefix-with-exotic-line-separators", False)
         rnd = "".join(chk.rng.choice(string.printable[:95] + "\n\t") for _ in range(chk.rng.randint(0, 60)))
         one(rnd, "random", False)
         one('version: "3"\n' + rnd, "random-after-preamble", False)
